@@ -249,7 +249,7 @@ class Var:
             if 'null' in args and not val and val != 0:
                 try:
                     if hasattr(val, fmt):
-                        val = _get(val, fmt)()
+                        val = _keep_taint(val, _get(val, fmt)())
                     elif fmt in special_formats:
                         if fmt == 'html-quote' and \
                            isinstance(val, TaintedString):
@@ -278,7 +278,7 @@ class Var:
                 # We duplicate the code here to avoid exception handler
                 # which tends to screw up stack or leak
                 if hasattr(val, fmt):
-                    val = _get(val, fmt)()
+                    val = _keep_taint(val, _get(val, fmt)())
                 elif fmt in special_formats:
                     if fmt == 'html-quote' and \
                        isinstance(val, TaintedString):
@@ -376,6 +376,14 @@ def _retaint(orig, result):
     # Untrusted values stay marked (and get quoted on insertion).
     if isinstance(orig, TaintedString) and '<' in result:
         return TaintedString(result)
+    return result
+
+
+def _keep_taint(orig, result):
+    # Result of a method format: text derived from an untrusted value
+    # stays marked.
+    if isinstance(result, str):
+        return _retaint(orig, result)
     return result
 
 
